@@ -57,10 +57,10 @@ theorem concurrent_only_if_cached (cfg : Cfg) (calls : List (Int × Req)) (pool 
 /-- Ownership: the background program depends on the entry whose response was handed to the caller
     only through its identifier and its two timestamps — never through its header list or body.
     (It re-reads its own copy from the store.) -/
-theorem background_ignores_returned_object (cfg : Cfg) (method : Str) (condH : Header) (key : Str)
+theorem background_ignores_returned_object (cfg : Cfg) (method : Str) (condH clientH : Header) (key : Str)
     (e e' : Entry) (f : Freshness) (ccReq : Directives) (start : Int)
     (hid : e.id = e'.id) (h1 : e.requestedAt = e'.requestedAt) (h2 : e.receivedAt = e'.receivedAt) :
-    backgroundRevalidate cfg method condH key e f ccReq start = backgroundRevalidate cfg method condH key e' f ccReq start := by
+    backgroundRevalidate cfg method condH clientH key e f ccReq start = backgroundRevalidate cfg method condH clientH key e' f ccReq start := by
   unfold backgroundRevalidate
   simp only [hid, h1, h2]
 
